@@ -122,6 +122,21 @@ func verifPanic(pv string) {
 	panic("verif: unknown panic value kind " + pv)
 }
 
+// verifCatch runs f and reports whether it panicked -- by a completion flag, so that panic(nil) (for which
+// recover() returns nil under the module's go 1.19 semantics) counts too.
+func verifCatch(f func()) (panicked bool, val string) {
+	finished := false
+	defer func() {
+		if !finished {
+			panicked = true
+			val = fmt.Sprint(recover())
+		}
+	}()
+	f()
+	finished = true
+	return
+}
+
 func verifRun(c *verifCase) map[string]any {
 	entered := make(chan struct{})
 	release := make(chan struct{})
@@ -184,7 +199,7 @@ func verifRun(c *verifCase) map[string]any {
 	var panicked bool
 	go func() {
 		defer close(gdone)
-		panicked, _ = verifdrv.Catch(func() { resp, err = call(parent, "req") })
+		panicked, _ = verifCatch(func() { resp, err = call(parent, "req") })
 	}()
 
 	// wait bounds the time the chain may take once nothing it waits for is outstanding any more
@@ -310,7 +325,7 @@ func verifRunMulti(c *verifCase) map[string]any {
 			k.started = true
 			go func() {
 				defer close(k.gdone)
-				k.panicked, _ = verifdrv.Catch(func() { k.resp, k.err = invoke(k.parent, "req", handlerOf(i)) })
+				k.panicked, _ = verifCatch(func() { k.resp, k.err = invoke(k.parent, "req", handlerOf(i)) })
 			}()
 			k.inside = wait(k, k.entered)
 		case "step":
